@@ -50,6 +50,9 @@ CHECKS = {
  "C14": ("complete enumeration of the finite tables: every jet of the three families (codes, prefix-freeness, names, type names), every Elements jet against the C tables through the real C decoder and type inference, every Core jet against its Elements namesake, every extern declaration against the clang-dumped C prototype",
          "All 368 + 471 + 428 jets and all ~590 extern items of simplicity-sys (497 functions). Exhaustive over these finite sets.",
          "Trusts clang's AST for the C side and the regex extraction of the Rust extern blocks (an audit that finds fewer than 400 items fails). Return types and statics are compared but only reported as notes.", "5/C14"),
+ "C16": ("exhaustive enumeration of all policy trees up to a node bound x every subset of available secrets x lock-time environments x every reordering of commutative children, judged by Boolean/threshold semantics with leaf truth obtained by running the leaf's own compiled fragment",
+         "All policies with <=3/5 nodes over 10 leaves (2 keys, a hash, after 41/42/43, older 1/2, trivial, unsatisfiable) and and/or/thresh(k, 2-3 children, 0<=k<=n): Policy::cmr == commit().cmr(); for each of 8 availability subsets x 5/8 environments (lock time and sequence below/at/above the thresholds, final, time-typed, disabled): satisfy succeeds <=> the policy is true, the returned program has the policy's CMR and runs. Canonical sorting: all policies with <=5 nodes, every permutation of commutative children at every depth, idempotence.",
+         "Signatures are real BIP-340 signatures from fixed keys. Larger policies are not explored.", "5/C16"),
  "C18": ("exhaustive enumeration of all pointer-DAG shapes up to a node bound x sharing policies (no sharing, pointer sharing, every congruence as a class-sharing tracker), iterators stepped against a recursive reference; real Commit/Redeem DAGs with the real MaxSharing",
          "All canonical DAG shapes with <=6/7 nodes and out-degree <=2 through a harness type implementing the public DagLike, under NoSharing, InternalSharing and every congruence partition (<=5/6 nodes) as an abstract identity-hash sharing; post-order, right-to-left, pre-order, verbose pre-order (counters, depth, parent, depth limit) and is_shared_as compared item by item. Real CommitNode/RedeemNode DAGs of <=4/5 nodes with MaxSharing keyed on the actual identity hash.",
          "Trusts the 25-line recursive reference post-order. Larger shapes are not explored.", "5/C18"),
